@@ -503,3 +503,101 @@ Print Assumptions C17_gen_save_prefix_base.
 Theorem C17_gen_save_switch : forall b, save_switch_boolean b = (b <=? 1).
 Proof. exact gen_save_switch. Qed.
 Print Assumptions C17_gen_save_switch.
+
+(* === 9. iniparser's dictionary: three parallel arrays that grow by doubling (C17/DictModel.v) refine the finite map of the model === *)
+From ScV Require Import Gen.DictC17 C17.DictModel C17.DictProofs C17.DictGen.
+
+(* EVERY hash function, EVERY initial size, EVERY history of dictionary_set / dictionary_unset from dictionary_new, EVERY key:
+   dictionary_get on the arrays = dict_get on the finite map that OptionsModel.v works with (dict_set / removal) - across every
+   growth step, replacement, removal and re-use of a freed slot *)
+Theorem C17_dict_refines_map : forall (hash : str -> Z) size ops k,
+  adict_get hash (arun hash ops (adict_new size)) k = OptionsModel.dict_get (mrun ops []) k.
+Proof. exact dict_refines_map. Qed.
+Print Assumptions C17_dict_refines_map.
+
+(* one step: the invariant (stored hash = hash of the key in every slot in use, d->n = number of slots in use, at least one
+   slot) is kept, and a later lookup of any key sees exactly the assignment *)
+Theorem C17_dict_set_get : forall (hash : str -> Z) d k v, ad_inv hash d ->
+  ad_inv hash (adict_set hash d k v) /\
+  forall k', adict_get hash (adict_set hash d k v) k' = if str_eqb k' k then Some v else adict_get hash d k'.
+Proof. exact set_get_step. Qed.
+Print Assumptions C17_dict_set_get.
+
+(* growth (mem_double on the three arrays with d->size * sizeof (element) bytes each): every (key, value, hash) triple stays
+   in its slot, the size doubles, d->n is unchanged *)
+Theorem C17_dict_grow_keeps_triples : forall d i, (i < length (ad_cells d))%nat ->
+  nth i (ad_cells (adict_grow d)) empty_cell = nth i (ad_cells d) empty_cell /\
+  length (ad_cells (adict_grow d)) = (2 * length (ad_cells d))%nat /\ ad_n (adict_grow d) = ad_n d.
+Proof. exact grow_keeps_triples. Qed.
+Print Assumptions C17_dict_grow_keeps_triples.
+
+(* regression guard: a growth step that copies d->size BYTES of the hash array (a quarter of it) loses entries as soon as the
+   dictionary grows: 129 keys, the key of slot 40 is gone, with 128 keys and with the real growth step it is there *)
+Theorem C17_dict_short_hash_copy_refuted :
+  adict_get dictionary_hash (wfill grow_short_hash 129) (wkey 40) = None /\
+  adict_get dictionary_hash (wfill grow_short_hash 128) (wkey 40) = Some (Some [118; 48]) /\
+  adict_get dictionary_hash (wfill adict_grow 129) (wkey 40) = Some (Some [118; 48]) /\
+  adict_get dictionary_hash (wfill grow_short_hash 129) (wkey 20) = Some (Some [118; 48]).
+Proof. exact short_hash_copy_refuted. Qed.
+Print Assumptions C17_dict_short_hash_copy_refuted.
+
+(* --- tie T1: the rules of DictModel.v are the ones generated from iniparser/dictionary.c (Gen/DictC17.v) --- *)
+
+(* dictionary_new: at least DICTMINSZ = 128 slots; three zeroed arrays of `size` elements of 8, 8 and 4 bytes *)
+Theorem C17_gen_dict_new : forall size r1 r2 r3, dict_new_size size = new_size size /\
+  (0 <= size < 2147483648 -> dict_new_arrays size r1 r2 r3 = (size, r1, r2, r3, size, ESZ_VAL, size, ESZ_KEY, size, ESZ_HASH)).
+Proof. exact gen_dict_new. Qed.
+Print Assumptions C17_gen_dict_new.
+
+(* mem_double (ptr, bytes): calloc (2 * bytes, 1); memcpy (new, ptr, bytes); free (ptr); the new block is returned *)
+Theorem C17_gen_dict_mem_double : forall ptr bytes new, 0 <= bytes < 1073741824 ->
+  dict_mem_double ptr bytes new = if new =? 0 then (0, 2 * bytes, 1, 0, 0, 0, 0) else (new, 2 * bytes, 1, new, ptr, bytes, ptr).
+Proof. exact gen_dict_mem_double. Qed.
+Print Assumptions C17_gen_dict_mem_double.
+
+(* dictionary_set grows exactly when d->n = d->size: mem_double on d->val, d->key, d->hash with the model's byte counts
+   (size * 8, size * 8, size * 4), then d->size = 2 * size *)
+Theorem C17_gen_dict_grow : forall v k h n size r1 r2 r3, dict_set_full n size = (n =? size) /\
+  (0 <= size < 134217728 -> dict_set_grow v k h size r1 r2 r3 =
+     (r1, r2, r3, grow_size size, v, grow_bytes_val size, k, grow_bytes_key size, h, grow_bytes_hash size)) /\
+  dict_set_grow_failed v k h = ((v =? 0) || (k =? 0) || (h =? 0)).
+Proof. exact gen_dict_grow. Qed.
+Print Assumptions C17_gen_dict_grow.
+
+Theorem C17_gen_dict_conditions : forall d key n i size,
+  dict_set_badargs d key = ((d =? 0) || (key =? 0)) /\ dict_set_nonempty n = (0 <? n) /\ dict_unset_notfound i size = (size <=? i).
+Proof. exact gen_dict_set_conditions. Qed.
+Print Assumptions C17_gen_dict_conditions.
+
+(* the search loops of dictionary_set / dictionary_unset / dictionary_get over arrays that hold the model's cells (DictGen.rep):
+   the slot the model finds - first slot in use whose stored hash and key match - or d->size / the default *)
+Theorem C17_gen_dict_set_find : forall (hash : str -> Z) d k dk dh sk, rep (ad_cells d) k dk dh sk -> ad_size d < 2147483647 ->
+  dict_set_find (S (length (ad_cells d))) dk dh sk (ad_size d) (hash k) = Some (found_or (length (ad_cells d)) (adict_find hash d k)).
+Proof. exact gen_dict_set_find. Qed.
+Print Assumptions C17_gen_dict_set_find.
+
+Theorem C17_gen_dict_unset_find : forall (hash : str -> Z) d k dk dh sk, rep (ad_cells d) k dk dh sk -> ad_size d < 2147483647 ->
+  dict_unset_find (S (length (ad_cells d))) dk dh sk (ad_size d) (hash k) = Some (found_or (length (ad_cells d)) (adict_find hash d k)).
+Proof. exact gen_dict_unset_find. Qed.
+Print Assumptions C17_gen_dict_unset_find.
+
+Theorem C17_gen_dict_get : forall (hash : str -> Z) d k dk dh dv sk def, rep (ad_cells d) k dk dh sk -> ad_size d < 2147483647 ->
+  dict_lookup (S (length (ad_cells d))) dk dh dv sk (ad_size d) def (hash k) =
+  Some (match adict_find hash d k with Some i => dv (Z.of_nat i) | None => def end).
+Proof. exact gen_dict_get. Qed.
+Print Assumptions C17_gen_dict_get.
+
+(* the insertion loop: the model's free_slot (first free slot from d->n on, else from 0 on) *)
+Theorem C17_gen_dict_set_slot : forall l n j dk, keyrep l dk -> (n < length l)%nat -> Z.of_nat (length l) < 2147483647 ->
+  free_slot l n = Some j -> dict_set_slot (2 * length l + 1) dk (Z.of_nat n) (Z.of_nat (length l)) = Some (Z.of_nat j).
+Proof. exact gen_dict_set_slot. Qed.
+Print Assumptions C17_gen_dict_set_slot.
+
+(* what is stored: a new entry (copy of the key, copy of the value or NULL, the hash, d->n + 1), a replaced value (the old one
+   freed), a removed entry (key freed and NULL, value freed and NULL, hash 0, d->n - 1) *)
+Theorem C17_gen_dict_stores : forall dk dv dh xs key val h n i,
+  (0 <= n < 2147483647 -> dict_set_store dk dv dh xs key val h n = (xs key, if z2b val then xs val else 0, h, n + 1)) /\
+  dict_set_replace dv xs i val = (0, if z2b val then xs val else 0, dv i) /\
+  (0 < n < 2147483648 -> dict_unset_remove dk dv dh i n = (0, if dv i =? 0 then -1 else 0, 0, n - 1, dk i, dv i)).
+Proof. exact gen_dict_stores. Qed.
+Print Assumptions C17_gen_dict_stores.
